@@ -191,7 +191,7 @@ def run_sequence(rng, n_ops):
     for step in range(n_ops):
         op = str(rng.choice(["set", "set", "update", "commit", "commit", "get_current", "get_current_all", "get_history_idx",
                              "get_history_flat", "get_history_all", "get_last", "to_dict", "results", "roundtrip_dict",
-                             "update_from_dict", "save_load", "logw", "commit_strict", "unset", "partial_dict"]))
+                             "update_from_dict", "save_load", "save_exclude", "logw", "commit_strict", "unset", "partial_dict"]))
         try:
             if ragged and op in ("set", "update") and rng.random() < 0.5:
                 n = int(rng.integers(1, 6))
@@ -301,7 +301,14 @@ def run_sequence(rng, n_ops):
                     note(op)
             elif op == "get_last":
                 k = str(rng.choice(RefState.HIST))
-                r = sm.get_last_history(k)
+                form = int(rng.integers(3))
+                dflt = np.full(3, -7.0)
+                # with and without the optional fallback value (returned only while nothing has been committed)
+                r = sm.get_last_history(k) if form == 0 else sm.get_last_history(k, dflt) if form == 1 else sm.get_last_history(k, default=dflt)
+                if form and len(ref.hist[k]) == 0 and not (isinstance(r, np.ndarray) and np.array_equal(r, np.full(3, -7.0))):
+                    bad.append(("get-last-default", f"get_last_history('{k}', default) on an empty history returned {r!r}"))
+                if form and len(ref.hist[k]) and not RefState.same(np.asarray(r), ref.hist[k][-1]):
+                    bad.append(("history-content", f"get_last_history('{k}', default) differs from the last committed value"))
                 if aliases(r, sm):
                     bad.append(("alias-get_last_history", f"get_last_history('{k}') shares memory with internal state"))
                 hand_back(r, f"get_last_history('{k}')")
@@ -388,6 +395,19 @@ def run_sequence(rng, n_ops):
                     msg = compare(sm3, ref)
                     if msg:
                         bad.append(("save-load", "load_state(save_state()) : " + msg))
+                note(op)
+            elif op == "save_exclude":
+                # an export with the optional `exclude` list (names of things to leave out of the FILE): whatever the list names, the
+                # live manager is what it was (the comparison with the reference model after this operation decides)
+                with tempfile.TemporaryDirectory(dir=os.environ.get("TVF_TMP")) as td:
+                    p = os.path.join(td, "s.pkl")
+                    import contextlib, io
+                    excl = [["pbar", "pool"], ["u"], ["blobs", "logl"], ["n_dim"], ["_history"], [], ["x", "beta", "logz"], ["_current"]][int(rng.integers(8))]
+                    try:
+                        with contextlib.redirect_stdout(io.StringIO()):
+                            sm.save_state(p, exclude=list(excl))
+                    except Exception as e:
+                        bad.append(("save-exclude-raises", f"save_state(path, exclude={excl}) raised {type(e).__name__}: {e}"))
                 note(op)
             elif op == "logw":
                 if len(ref.hist["beta"]) and len(ref.hist["logl"]) == len(ref.hist["beta"]) == len(ref.hist["logz"]):
